@@ -124,6 +124,7 @@ var checks = map[string][]HarnessSpec{
 	"C18": {
 		{Name: "verifC18Dial", NoisyNative: true, Pkg: ".", Labels: []string{"returned", "connected", "all-failed", "quiesced"}},
 		{Name: "verifC18Defaults", NoisyNative: true, Pkg: ".", Labels: []string{"defaults"}},
+		{Name: "verifC18Schedules", NoisyNative: true, Pkg: ".", Labels: []string{"schedules"}},
 	},
 	"C19": {
 		{Name: "verifC19RoundTrip", NoisyNative: true, Pkg: ".", Labels: []string{"roundtrip", "h3", "https", "plaintext-refused"}},
@@ -169,7 +170,7 @@ var propAssumptions = map[string][]string{
 	"C15": {"oracle: the rules of the statement as a straight-line reference in the harness", "bounds: <=2 (3) HTTPS records (quick: only the first varies in every field), priority 0..2, target, port, no-default-alpn, ALPN with spare capacity, ECH, hints; <=2 addresses of 4/16 (5) bytes over a 2-value alphabet; ports 443/80 (8443,0); networks tcp,tcp4,udp6 (all six); early termination"},
 	"C16": {"DoH seam as C14; package clock timeNow set to a symbolic non-decreasing clock by the in-package harness", "real golang-lru 2Q cache code and sync.RWMutex (engine model) are executed", "bounds: min-TTL over <=3 answers with arbitrary 32-bit TTLs; histories of 4 (5) operations {lookup, advance clock by <=2^31 s, change zone, toggle upstream failure (transport error, SERVFAIL or response code 9)} on one name; zone shapes: 1..2 A records, no record, records without an answer", "verifC16Keys: two names x two types, concrete TTLs", "concurrency clause (verifC16Race): two goroutines Resolve the same name through one Resolver (cold or warm cache) and enumerate Targets; every schedule with at most 2 pre-emptions at synchronisation points (lock acquire/release, channel operations) is explored and a vector-clock happens-before monitor over all loads, stores, in-place appends and sort swaps reports unordered conflicting accesses; native replay under the Go race detector (-race)", "outside: pre-emption between ordinary instructions, more than 2 goroutines, more than 2 pre-emptions; the LRU library's internals are executed but only its lock operations are scheduling points", "verifC16Constructors: NewResolver x2, SetCacheSize(0) then SetCacheSize(1|2), working set of 3 names; verifC16ZeroTTLConcurrent: expired entry, TTL-0 answers, two concurrent lookups, <=2 pre-emptions"},
 	"C17": {"resolver injected through the context (transportResolver) by the in-package harness; DialFunc is a harness function with symbolic outcomes", "concurrency layer as C10 with deterministic scheduling (the property is about data, not order)", "bounds: <=2 HTTPS records (ECH on a symbolic subset) over 2 addresses, RequireECH/PublicName/caller ECH list/caller ServerName symbolic, outcomes {ok,error,ECH rejection with/without retry configs, bare or wrapped}, a retry answered by another retry list, MaxConcurrency 1", "verifC17AddressForms: 6 address forms (IPv6/IPv4 literals, trailing dot, padded list entry, a failing first name)"},
-	"C18": {"reduced strength: virtual time, goroutine interleavings only at synchronisation points with deterministic scheduling, select choices forked; durations from the grid {0,2,6} units, ConcurrencyDelay 4 units, Timeout 10 units", "bounds: 0..3 targets, MaxConcurrency 1..2, outcomes {succeed, fail, hang, succeed without watching the context}, optional caller cancellation at {0.5,3.5,6.5} units (never at an instant at which an attempt completes)", "verifC18Defaults: zero-valued Dialer, 5 hanging targets, cancellation after 2.5 s", "time upper bounds and the goroutine-leak count are asserted in the engine only (native replay uses real timers and lower bounds)", "outside: runtime schedules (pre-emption), symbolic durations"},
+	"C18": {"reduced strength: virtual time, goroutine interleavings only at synchronisation points with deterministic scheduling, select choices forked; durations from the grid {0,2,6} units, ConcurrencyDelay 4 units, Timeout 10 units", "bounds: 0..3 targets, MaxConcurrency 1..2, outcomes {succeed, fail, hang, succeed without watching the context}, optional caller cancellation at {0.5,3.5,6.5} units (never at an instant at which an attempt completes)", "verifC18Defaults: zero-valued Dialer, 5 hanging targets, cancellation after 2.5 s", "time upper bounds and the goroutine-leak count are asserted in the engine only (native replay uses real timers and lower bounds)", "outside: runtime schedules (pre-emption), symbolic durations", "verifC18Schedules: 2 targets, 2 workers, outcomes {succeed, fail} at once, optional cancellation; scheduling points at go/channel/select/atomic operations and a 5 ms stall inside the dial function; every schedule within 2 deviations from the default scheduler"},
 	"C19": {"DoH seam as C14; (*http.Transport).RoundTrip modelled as: dial the canonical address of URL.Host through the transport's own DialTLSContext/DialContext with the request context; natively the real http.Transport runs", "bounds: 4 concrete URL forms x <=2 (3) HTTPS records with ALPN a symbolic subset of {h2,h3,http/1.1,x}, no-default-alpn symbolic, optional alias record, with/without an HTTP/3 round-tripper, Host header override, Transport.TLSConfig", "pool keys (verifC19PoolKeys): 15 adversarially similar concrete origins (incl. IPv6 literals), with/without HTTPS records (scheme upgrade) and a shared Host header override, pairwise: different scheme/host/port never share the address the underlying transport is asked to dial (its pool key)", "outside: net/http connection pooling itself (read, not encoded)"},
 	"C20": {"seams: getZoneData and updateRecord diverted to harness hooks (source overlay); pagination/JSON/HTTP status handling are behind the seams", "oracle: token-level reference (split on single spaces) in the harness", "preconditions: no spaces inside a parameter", "bounds: first record with <=2 (3) parameters (known shapes or <=2 (4) symbolic bytes over {e,c,h,=,\",a,1}; several ech entries may occur), second record fixed in the quick tier, a second zone with a record of the same name; config lists whose base64 has no/one/two padding characters and '+' '/'; <=2 (3) targets incl. duplicates, unknown zone, missing name; one injected fault (zone listing or first PATCH)"},
 }
